@@ -366,6 +366,21 @@ type byzcfg struct {
 }
 
 func (b byzcfg) scripted() []Event {
+	if b.script == "cross-round" {
+		// the deviator equivocates in round 1 and slips a broadcast of a later round in between
+		// the two conflicting payloads at each honest party
+		S := b.byz[0]
+		A, B := b.honest[0], b.honest[1]
+		X, Y, L := b.body(1, 'x'), b.body(1, 'y'), b.body(2, 'x')
+		return []Event{
+			{Kind: 'B', From: S, To: A, Data: mpcPayload(X)},
+			{Kind: 'B', From: S, To: A, Data: mpcPayload(L)},
+			{Kind: 'B', From: S, To: A, Data: mpcPayload(Y)},
+			{Kind: 'B', From: S, To: B, Data: mpcPayload(Y)},
+			{Kind: 'B', From: S, To: B, Data: mpcPayload(L)},
+			{Kind: 'B', From: S, To: B, Data: mpcPayload(X)},
+		}
+	}
 	if b.script != "alias" {
 		return nil
 	}
@@ -734,6 +749,8 @@ func gen(c *harness.C) []harness.Case {
 				{name: "N3-prefix-collision", honest: []uint16{1, 2}, byz: []uint16{3}, rounds: []uint8{1}, budget: 4, collide: "prefix8"},
 				{name: "N3-suffix-collision", honest: []uint16{1, 2}, byz: []uint16{3}, rounds: []uint8{1}, budget: 4, collide: "suffix8"},
 				{name: "N4b2-alias-scripted", honest: []uint16{2, 3}, byz: []uint16{1, 257}, rounds: []uint8{1}, budget: 1, script: "alias"},
+				{name: "N3-cross-round-scripted", honest: []uint16{1, 2}, byz: []uint16{3}, rounds: []uint8{1, 2}, budget: 1, script: "cross-round"},
+				{name: "N4-cross-round-scripted", honest: []uint16{1, 2, 3}, byz: []uint16{4}, rounds: []uint8{1, 2}, budget: 0, script: "cross-round"},
 				{name: "N3t2", honest: []uint16{1, 2}, byz: []uint16{3}, rounds: []uint8{1}, budget: 3, t: 2},
 				{name: "N4t2", honest: []uint16{1, 2, 3}, byz: []uint16{4}, rounds: []uint8{1}, budget: 3, t: 2},
 			}
